@@ -8,7 +8,7 @@ use std::rc::Rc;
 
 pub static PROP: Prop = Prop {
     id: "C13",
-    rule: "Pipelines = source x adaptor chain x consumer, run 25 per script (zip / chain also with pair-emitting arguments: a map, an enumerate adaptor; consumers include four peekable interleavings of peek / peek_back with forward and backward consumption). Sources: list, tuple, exclusive / inclusive / descending range, ASCII string, map, and generators (looping over a range, over a list, and over an adaptor chain) that print `p<i>` on every pull, each of length 0..5 (exhaustive). Adaptors (numeric parameters 0..3): each, keep, skip, take, take_while, step, chain, zip, enumerate, chunks, windows, flatten, intersperse, cycle (always under a later take), reversed, iter. Consumers: to_list, to_tuple, count, sum, product, min, max, min_max, fold, find, position, any, all, last, consume, a for loop, 3-target unpacking, and next/next_back call sequences. All chains of depth <= 2 are enumerated (quick: x every source x a consumer rotated per pipeline; thorough: x every consumer, plus depth 3 over a reduced source set); deeper chains are proptest-sampled. Oracle: (1) the printed result equals a sequence model written in plain Rust on vectors from the core-library docs (errors for chunks/windows/step 0 and reversed on a non-bidirectional chain); (2) laziness: nothing is pulled before the pipeline is consumed, pulls are p0, p1, ... each once and in order, and the number of pulls is at most the model's minimal demand plus the declared look-ahead of the chain; (3) reversed over a bidirectional chain is the forward output backwards; (4) a copy taken after k pulls advances independently of the original. Zip / chain arguments include pair-emitting iterables (map, enumerate); peekable consumers interleave peek / peek_back with forward and backward consumption. Non-trivial: chain depth >= 2, reuse of an exhausted iterator, or a mixed-direction call sequence.",
+    rule: "Pipelines = source x adaptor chain x consumer, run 25 per script (zip / chain also with pair-emitting arguments: a map, an enumerate adaptor; consumers include four peekable interleavings of peek / peek_back with forward and backward consumption). Sources: list, tuple, exclusive / inclusive / descending range, exclusive / inclusive range with bounds beyond 32 bits, ASCII string, map, and generators (looping over a range, over a list, and over an adaptor chain) that print `p<i>` on every pull, each of length 0..5 (exhaustive). Adaptors (numeric parameters 0..3): each, keep, skip, take, take_while, step, chain, zip, enumerate, chunks, windows, flatten, intersperse, cycle (always under a later take), reversed, iter. Consumers: to_list, to_tuple, count, sum, product, min, max, min_max, fold, find, position, any, all, last, consume, a for loop, 3-target unpacking, and next/next_back call sequences. All chains of depth <= 2 are enumerated (quick: x every source x a consumer rotated per pipeline; thorough: x every consumer, plus depth 3 over a reduced source set); deeper chains are proptest-sampled. Oracle: (1) the printed result equals a sequence model written in plain Rust on vectors from the core-library docs (errors for chunks/windows/step 0 and reversed on a non-bidirectional chain); (2) laziness: nothing is pulled before the pipeline is consumed, pulls are p0, p1, ... each once and in order, and the number of pulls is at most the model's minimal demand plus the declared look-ahead of the chain; (3) reversed over a bidirectional chain is the forward output backwards; (4) a copy taken after k pulls advances independently of the original. Zip / chain arguments include pair-emitting iterables (map, enumerate); peekable consumers interleave peek / peek_back with forward and backward consumption. Non-trivial: chain depth >= 2, reuse of an exhausted iterator, or a mixed-direction call sequence.",
     assumptions: &[
         "look-ahead allowance per adaptor: step k: k-1, intersperse / zip / chain / peekable: 1, windows n: n, chunks n: n",
         "error texts are not compared (only that an error is raised)",
@@ -64,9 +64,12 @@ pub enum SrcK {
     ObjIterator,
     GenList,
     GenPipe,
+    /// ranges whose bounds do not fit in 32 bits (a separate representation inside koto)
+    RangeLarge,
+    RangeLargeInc,
 }
-pub const SOURCES: [SrcK; 16] = [
-    SrcK::List, SrcK::Tuple, SrcK::Range, SrcK::RangeInc, SrcK::RangeDesc, SrcK::Str, SrcK::Map, SrcK::Gen, SrcK::StrChars, SrcK::StrBytes, SrcK::StrSplit, SrcK::StrLines, SrcK::ObjNext, SrcK::ObjIterator, SrcK::GenList, SrcK::GenPipe,
+pub const SOURCES: [SrcK; 18] = [
+    SrcK::List, SrcK::Tuple, SrcK::Range, SrcK::RangeInc, SrcK::RangeDesc, SrcK::Str, SrcK::Map, SrcK::Gen, SrcK::StrChars, SrcK::StrBytes, SrcK::StrSplit, SrcK::StrLines, SrcK::ObjNext, SrcK::ObjIterator, SrcK::GenList, SrcK::GenPipe, SrcK::RangeLarge, SrcK::RangeLargeInc,
 ];
 
 #[derive(Clone, Copy, Debug, PartialEq, Eq, Serialize, Deserialize)]
@@ -167,6 +170,8 @@ fn source_values(k: SrcK, len: u8) -> Vec<MV> {
         SrcK::StrLines => "abcde".chars().take(len as usize).map(|c| MV::Str(c.to_string())).collect(),
         SrcK::Range => (0..n).map(MV::Int).collect(),
         SrcK::RangeInc => (0..=n).map(MV::Int).collect(),
+        SrcK::RangeLarge => (0..n).map(|i| MV::Int(3_000_000_000 + i)).collect(),
+        SrcK::RangeLargeInc => (0..=n).map(|i| MV::Int(3_000_000_000 + i)).collect(),
         SrcK::RangeDesc => vec![],
         SrcK::Str => "abcde".chars().take(len as usize).map(|c| MV::Str(c.to_string())).collect(),
         SrcK::Map => "abcde".chars().take(len as usize).enumerate().map(|(i, c)| MV::Tup(vec![MV::Str(c.to_string()), MV::Int(i as i64 + 1)])).collect(),
@@ -184,6 +189,8 @@ fn source_text(k: SrcK, len: u8) -> String {
         },
         SrcK::Range => format!("(0..{n})"),
         SrcK::RangeInc => format!("(0..={n})"),
+        SrcK::RangeLarge => format!("(3000000000..{})", 3_000_000_000i64 + n as i64),
+        SrcK::RangeLargeInc => format!("(3000000000..={})", 3_000_000_000i64 + n as i64),
         SrcK::RangeDesc => format!("({n}..0)"),
         SrcK::Str => format!("'{}'", &"abcde"[..n]),
         SrcK::Map => format!("{{{}}}", "abcde".chars().take(n).enumerate().map(|(i, c)| format!("{c}: {}", i + 1)).collect::<Vec<_>>().join(", ")),
@@ -383,7 +390,13 @@ pub fn model_consume(v: &[MV], bidi: bool, cons: Cons) -> Result<String, ModelEr
             if !all_int(v) {
                 return Err(if v.len() <= 1 { ModelErr::Unjudged("product of a single non-number") } else { ModelErr::Error });
             }
-            v.iter().map(|x| if let MV::Int(n) = x { *n } else { 1 }).product::<i64>().to_string()
+            let mut p: i64 = 1;
+            for x in v {
+                if let MV::Int(n) = x {
+                    p = p.checked_mul(*n).ok_or(ModelErr::Unjudged("product overflows 64 bits"))?;
+                }
+            }
+            p.to_string()
         }
         Cons::Min | Cons::Max | Cons::MinMax => {
             if v.is_empty() {
